@@ -216,7 +216,11 @@ def gen_sweep(rng: Rng, n: int) -> list[dict]:
     for _ in range(n if _ALL_FIXTURES else 0):
         d, p_ = rng.choice(_ALL_FIXTURES)
         with open(p_, encoding="utf-8", errors="replace") as f:
-            out.append({"text": f.read(), "dialect": d, "src": os.path.relpath(p_, FIX)})
+            text = f.read()
+        mut = "none"
+        if rng.chance(0.5):
+            text, mut = mutate(rng, text)
+        out.append({"text": text, "dialect": d, "src": os.path.relpath(p_, FIX), "mut": mut})
     return out
 
 
@@ -278,7 +282,7 @@ def run_one(ctx: Any, seed: int, tier: str, replay: Optional[dict] = None) -> di
         node_seed = replay["node_seed"]
     else:
         inputs, fillers = gen_inputs(rng.fork("inputs"))
-        sweep = gen_sweep(rng.fork("sweep"), 4 if tier == "quick" else 6)
+        sweep = gen_sweep(rng.fork("sweep"), 6 if tier == "quick" else 8)
         history = gen_history(rng.fork("history"), inputs, fillers)
         pool = ctx.hashseeds(6)
         hr = rng.fork("hashseed")
@@ -334,7 +338,7 @@ def run_one(ctx: Any, seed: int, tier: str, replay: Optional[dict] = None) -> di
                 })
             if sum(R1[i].get("stats", {}).get(k, 0) for k in ("cache_hit_skipped", "options_unpruned")):
                 nontrivial.append("%s|%s|alloff|fresh" % (tdig, inp["dialect"]))
-        # sweep: unmutated fixtures drawn file-uniformly over ALL dialects, each parsed with defaults and
+        # sweep: fixtures drawn file-uniformly over ALL dialects (half of them token-mutated), each parsed with defaults and
         # with both optimisations off in the reference process (no fork per input): optimised == unoptimised
         for j, sw in enumerate(sweep):
             if r1node is None:
@@ -357,8 +361,8 @@ def run_one(ctx: Any, seed: int, tier: str, replay: Optional[dict] = None) -> di
                 violations.append({
                     "oracle": "optimised-vs-unoptimised",
                     "signature": "C06:optimisation-changes-result",
-                    "message": "sweep input #%d (%s, %s): default parse differs from the parse with cache and pruning off: %s\n text=%r" % (
-                        j, sw["dialect"], sw["src"], what, sw["text"][:300]),
+                    "message": "sweep input #%d (%s, %s, mutation %s): default parse differs from the parse with cache and pruning off: %s\n text=%r" % (
+                        j, sw["dialect"], sw["src"], sw.get("mut"), what, sw["text"][:300]),
                 })
         if r1node is not None:
             r1node.close()
